@@ -45,6 +45,7 @@ import (
 	"sort"
 	"strconv"
 	"strings"
+	"sync"
 	"sync/atomic"
 	"time"
 
@@ -400,8 +401,12 @@ var urlParams = []url.URL{
 	{RawQuery: "zz=1"},
 	{Host: "example.com", Path: "/b"},
 	{Scheme: "http", Host: "www.example.com", Path: "/a"},
+	{Host: "*.org"},
+	{Host: "*.*.example.com"},
+	{Host: "*"},
+	{Scheme: "https", Host: "*.example.com", Path: "/b"},
 }
-var methodParams = []string{"GET", "POST", "get", "", "PUT"}
+var methodParams = []string{"GET", "POST", "get", "", "PUT", "Post"}
 
 func (n *node) filterConf() filterConf {
 	pi, _ := strconv.Atoi(n.param)
@@ -487,14 +492,28 @@ func (n *node) filters(acc map[string]*node) {
 // ------------------------------------------------------------------ messages
 
 var schemes = []string{"http", "https"}
-var hosts = []string{"example.com", "www.example.com", "other.org"}
+var hosts = []string{"example.com", "www.example.com", "other.org", "a.b.example.com", "localhost"}
 var paths = []string{"/a", "/b"}
+
+type tagVals struct {
+	tag string
+	pat string // one letter per occurrence of the carriers: y = matching value, n = another value
+}
 
 type msgSpec struct {
 	res    bool
 	url    string
 	method string
-	hs, gs []string
+	vals   []tagVals
+}
+
+func isAlpha(s string) bool {
+	for _, c := range s {
+		if !(c >= 'A' && c <= 'Z') && !(c >= 'a' && c <= 'z') {
+			return false
+		}
+	}
+	return s != ""
 }
 
 func parseMsg(res bool, toks []string) (*msgSpec, error) {
@@ -503,28 +522,32 @@ func parseMsg(res bool, toks []string) (*msgSpec, error) {
 	for _, t := range toks {
 		switch {
 		case t[0] == 'u' && len(t) == 4 && isDigits(t[1:]):
-			sc, ho, pa = int(t[1]-'0')%2, int(t[2]-'0')%3, int(t[3]-'0')%2
-		case t[0] == 'm' && len(t) > 1:
+			sc, ho, pa = int(t[1]-'0')%len(schemes), int(t[2]-'0')%len(hosts), int(t[3]-'0')%len(paths)
+		case t[0] == 'm' && isAlpha(t[1:]):
 			m.method = t[1:]
-			for _, c := range m.method {
-				if c < 'A' || c > 'Z' {
-					return nil, fmt.Errorf("bad method")
-				}
-			}
 		case t[0] == 'h' && isDigits(t[1:]):
-			m.hs = append(m.hs, t[1:])
+			m.vals = append(m.vals, tagVals{t[1:], "y"})
 		case t[0] == 'g' && isDigits(t[1:]):
-			m.gs = append(m.gs, t[1:])
+			m.vals = append(m.vals, tagVals{t[1:], "n"})
+		case t[0] == 'v' && strings.Count(t, ":") == 1:
+			f := strings.Split(t[1:], ":")
+			if !isDigits(f[0]) || f[1] == "" || strings.Trim(f[1], "yn") != "" {
+				return nil, fmt.Errorf("bad msg token %q", t)
+			}
+			m.vals = append(m.vals, tagVals{f[0], f[1]})
 		default:
 			return nil, fmt.Errorf("bad msg token %q", t)
 		}
 	}
 	var q []string
-	for _, h := range m.hs {
-		q = append(q, "q"+h+"=1")
-	}
-	for _, g := range m.gs {
-		q = append(q, "q"+g+"=0")
+	for _, v := range m.vals {
+		for _, c := range v.pat {
+			if c == 'y' {
+				q = append(q, "q"+v.tag+"=1")
+			} else {
+				q = append(q, "q"+v.tag+"=0")
+			}
+		}
 	}
 	m.url = schemes[sc] + "://" + hosts[ho] + paths[pa]
 	if len(q) > 0 {
@@ -539,26 +562,24 @@ func (m *msgSpec) build() (*http.Request, *http.Response) {
 	if err != nil {
 		panic(err)
 	}
+	hv := map[rune]string{'y': "yes", 'n': "no"}
+	cv := map[rune]string{'y': "v", 'n': "w"}
 	if !m.res {
-		for _, h := range m.hs {
-			req.Header.Set("X-Cond-"+h, "yes")
-			req.AddCookie(&http.Cookie{Name: "c" + h, Value: "v"})
-		}
-		for _, g := range m.gs {
-			req.Header.Set("X-Cond-"+g, "no")
-			req.AddCookie(&http.Cookie{Name: "c" + g, Value: "w"})
+		for _, v := range m.vals {
+			for _, c := range v.pat {
+				req.Header.Add("X-Cond-"+v.tag, hv[c])
+				req.AddCookie(&http.Cookie{Name: "c" + v.tag, Value: cv[c]})
+			}
 		}
 		return req, nil
 	}
 	res := &http.Response{StatusCode: 200, Status: "200 OK", Proto: "HTTP/1.1", ProtoMajor: 1, ProtoMinor: 1,
 		Header: http.Header{}, Body: http.NoBody, Request: req}
-	for _, h := range m.hs {
-		res.Header.Set("X-Cond-"+h, "yes")
-		res.Header.Add("Set-Cookie", (&http.Cookie{Name: "c" + h, Value: "v"}).String())
-	}
-	for _, g := range m.gs {
-		res.Header.Set("X-Cond-"+g, "no")
-		res.Header.Add("Set-Cookie", (&http.Cookie{Name: "c" + g, Value: "w"}).String())
+	for _, v := range m.vals {
+		for _, c := range v.pat {
+			res.Header.Add("X-Cond-"+v.tag, hv[c])
+			res.Header.Add("Set-Cookie", (&http.Cookie{Name: "c" + v.tag, Value: cv[c]}).String())
+		}
 	}
 	return req, res
 }
@@ -657,6 +678,9 @@ func runScript(in []string) (out []string) {
 	}()
 	if len(in) > 0 && in[0] == "CONC" {
 		return runConc(in[1:])
+	}
+	if len(in) > 0 && in[0] == "STRESS" {
+		return runStress(in[1:])
 	}
 	if len(in) == 0 || (in[0] != "DIRECT" && in[0] != "HTTP") {
 		return []string{"BADCASE"}
@@ -912,6 +936,156 @@ func runConc(toks []string) (out []string) {
 	return out
 }
 
+// stressConfig: the i-th (0-based) configuration POSTed by a STRESS case, as
+// tree tokens.  The driver uses the same rule.
+func stressConfig(i int) []string {
+	id := strconv.Itoa(i + 1)
+	switch {
+	case i%7 == 3:
+		return []string{"X0"}
+	case i%5 == 2:
+		return []string{"L" + id + ".b.0.q"}
+	case i%11 == 6:
+		return []string{"L" + id + ".b.0.s"}
+	}
+	return []string{"L" + id + ".b.0.-"}
+}
+
+// runStress: STRESS <K> <P> <G>
+// One goroutine POSTs K configurations (stressConfig) back to back through the
+// martianhttp handler.  P goroutines run exchanges (ModifyRequest, then
+// ModifyResponse of the same exchange), G goroutines run (GET, ModifyRequest,
+// GET); each records what it saw in its own program order and performs one
+// more full round after the last POST has returned.
+// OUT: ST<0|1 per POST>, then per thread "|" followed by x<req ids>/<res ids>
+// (one exchange; consecutive identical exchanges whose two halves agree are
+// dropped), c<ordinal>|c- (GET), q<ids> (request half).
+func runStress(toks []string) (out []string) {
+	if len(toks) != 3 || !isDigits(toks[0]) || !isDigits(toks[1]) || !isDigits(toks[2]) {
+		return []string{"BADCASE"}
+	}
+	K, _ := strconv.Atoi(toks[0])
+	P, _ := strconv.Atoi(toks[1])
+	G, _ := strconv.Atoi(toks[2])
+	if K < 1 || K > 100000 || P+G < 1 || P+G > 64 {
+		return []string{"BADCASE"}
+	}
+	bodies := make([]string, K)
+	for i := range bodies {
+		b, _, err := postBody(stressConfig(i))
+		if err != nil {
+			return []string{"BADCASE"}
+		}
+		bodies[i] = b
+	}
+	mh := martianhttp.NewModifier()
+	var stop int32
+	var started, wg sync.WaitGroup
+	obs := make([][]string, P+G)
+	var panicked int32
+	ids := func(h http.Header, err error) string {
+		s := strings.Join(h[traceHeader], ",")
+		if err != nil {
+			s += "!"
+		}
+		return s
+	}
+	for t := 0; t < P+G; t++ {
+		wg.Add(1)
+		started.Add(1)
+		go func(t int) {
+			defer wg.Done()
+			defer func() {
+				if r := recover(); r != nil {
+					atomic.StoreInt32(&panicked, 1)
+				}
+			}()
+			req, _ := http.NewRequest("GET", "http://example.com/a", nil)
+			res := &http.Response{StatusCode: 200, Header: http.Header{}, Body: http.NoBody, Request: req}
+			get := func() string {
+				rec := httptest.NewRecorder()
+				mh.ServeHTTP(rec, httptest.NewRequest("GET", "/configure", nil))
+				b := rec.Body.String()
+				if b == "" {
+					return "c-"
+				}
+				i := strings.Index(b, `"id": `)
+				if i < 0 {
+					return "c?"
+				}
+				j := i + 6
+				for j < len(b) && b[j] >= '0' && b[j] <= '9' {
+					j++
+				}
+				n, _ := strconv.Atoi(b[i+6 : j])
+				return "c" + strconv.Itoa(n-1)
+			}
+			first := true
+			for {
+				stopping := atomic.LoadInt32(&stop) == 1
+				if t < P {
+					req.Header.Del(traceHeader)
+					res.Header.Del(traceHeader)
+					e1 := mh.ModifyRequest(req)
+					a := ids(req.Header, e1)
+					e2 := mh.ModifyResponse(res)
+					b := ids(res.Header, e2)
+					tok := "x" + a + "/" + b
+					if n := len(obs[t]); !(n > 0 && a == b && obs[t][n-1] == tok) {
+						obs[t] = append(obs[t], tok)
+					}
+				} else {
+					c1 := get()
+					req.Header.Del(traceHeader)
+					e1 := mh.ModifyRequest(req)
+					a := "q" + ids(req.Header, e1)
+					c2 := get()
+					n := len(obs[t])
+					if !(n >= 3 && c1 == c2 && obs[t][n-3] == c1 && obs[t][n-2] == a && obs[t][n-1] == c2 &&
+						(c1 == "c-") == (a == "q")) {
+						obs[t] = append(obs[t], c1, a, c2)
+					}
+				}
+				if first {
+					first = false
+					started.Done()
+				}
+				if stopping {
+					return
+				}
+			}
+		}(t)
+	}
+	started.Wait()
+	st := make([]byte, K)
+	for i, b := range bodies {
+		rec := httptest.NewRecorder()
+		mh.ServeHTTP(rec, httptest.NewRequest("POST", "/configure", strings.NewReader(b)))
+		switch rec.Code {
+		case 200:
+			st[i] = '1'
+		case 400:
+			st[i] = '0'
+		default:
+			st[i] = '?'
+		}
+		if i%64 == 0 {
+			runtime.Gosched()
+		}
+	}
+	atomic.StoreInt32(&stop, 1)
+	wg.Wait()
+	if atomic.LoadInt32(&panicked) == 1 {
+		return []string{"PANIC"}
+	}
+	out = append(out, "ST"+string(st))
+	for _, o := range obs {
+		out = append(out, "|")
+		out = append(out, o...)
+	}
+	return out
+}
+
 // ------------------------------------------------------------------ generators
 
 type gen struct {
@@ -1002,7 +1176,7 @@ func (g *gen) tree(depth, width int) []string {
 	default:
 		g.nextTag++
 		ft := "huqmc"[g.r.Intn(5)]
-		out := []string{fmt.Sprintf("f%c%d.%d.%s", ft, g.nextTag, g.r.Intn(8), g.scope())}
+		out := []string{fmt.Sprintf("f%c%d.%d.%s", ft, g.nextTag, g.r.Intn(12), g.scope())}
 		out = append(out, g.tree(depth-1, width)...)
 		if g.r.Chance(3, 5) {
 			out = append(out, "ELSE")
@@ -1105,11 +1279,11 @@ func (g *gen) wrapped(inner []string) []string {
 		return append(out, "@1", g.wideLeaf(0), "@2", g.wideLeaf(0), ")")
 	case 2:
 		g.nextTag++
-		out := append([]string{fmt.Sprintf("f%c%d.%d.%s", "huqmc"[g.r.Intn(5)], g.nextTag, g.r.Intn(8), g.bigScope())}, inner...)
+		out := append([]string{fmt.Sprintf("f%c%d.%d.%s", "huqmc"[g.r.Intn(5)], g.nextTag, g.r.Intn(12), g.bigScope())}, inner...)
 		return append(out, "ELSE", g.wideLeaf(0), ")")
 	case 3:
 		g.nextTag++
-		out := []string{fmt.Sprintf("f%c%d.%d.%s", "huqmc"[g.r.Intn(5)], g.nextTag, g.r.Intn(8), g.bigScope()), g.wideLeaf(0), "ELSE"}
+		out := []string{fmt.Sprintf("f%c%d.%d.%s", "huqmc"[g.r.Intn(5)], g.nextTag, g.r.Intn(12), g.bigScope()), g.wideLeaf(0), "ELSE"}
 		return append(append(out, inner...), ")")
 	}
 	return inner
@@ -1133,11 +1307,11 @@ func (g *gen) deep(d int) []string {
 		return append(out, "@"+strconv.Itoa(g.r.Intn(3)), g.wideLeaf(50), ")")
 	case 2:
 		g.nextTag++
-		out := []string{fmt.Sprintf("f%c%d.%d.%s", "huqmc"[g.r.Intn(5)], g.nextTag, g.r.Intn(8), g.bigScope()), g.wideLeaf(50), "ELSE"}
+		out := []string{fmt.Sprintf("f%c%d.%d.%s", "huqmc"[g.r.Intn(5)], g.nextTag, g.r.Intn(12), g.bigScope()), g.wideLeaf(50), "ELSE"}
 		return append(append(out, g.deep(d-1)...), ")")
 	default:
 		g.nextTag++
-		out := []string{fmt.Sprintf("f%c%d.%d.%s", "huqmc"[g.r.Intn(5)], g.nextTag, g.r.Intn(8), g.bigScope())}
+		out := []string{fmt.Sprintf("f%c%d.%d.%s", "huqmc"[g.r.Intn(5)], g.nextTag, g.r.Intn(12), g.bigScope())}
 		out = append(out, g.deep(d-1)...)
 		if g.r.Bool() {
 			out = append(out, "ELSE", g.wideLeaf(50))
@@ -1185,21 +1359,24 @@ func (g *gen) msg() []string {
 	if g.r.Bool() {
 		kind = "MSGs"
 	}
-	out := []string{kind, fmt.Sprintf("u%d%d%d", g.r.Intn(2), g.r.Intn(3), g.r.Intn(2)),
-		"m" + []string{"GET", "POST", "PUT"}[g.r.Intn(3)]}
+	out := []string{kind, fmt.Sprintf("u%d%d%d", g.r.Intn(2), g.r.Intn(5), g.r.Intn(2)),
+		"m" + []string{"GET", "POST", "PUT", "get", "Post"}[g.r.Intn(5)]}
 	for t := 1; t <= g.nextTag; t++ {
-		switch g.r.Intn(3) {
+		switch g.r.Intn(6) {
 		case 0:
 			out = append(out, "h"+strconv.Itoa(t))
 		case 1:
 			out = append(out, "g"+strconv.Itoa(t))
+		case 2, 3:
+			// several occurrences: the matching value first / middle / last / absent
+			out = append(out, "v"+strconv.Itoa(t)+":"+valPatterns[g.r.Intn(len(valPatterns))])
 		}
 	}
 	return out
 }
 
-// defective reports whether the tree tokens contain something that must make
-// the configuration be rejected (by construction, without running anything).
+var valPatterns = []string{"yn", "ny", "nyn", "nny", "ynn", "nn", "nnn", "yy", "nnyn", "nnnny"}
+
 func defective(toks []string) bool {
 	for _, t := range toks {
 		switch {
@@ -1590,5 +1767,57 @@ func main() {
 			in = append(in, g.msg()...)
 		}
 		emit("size-reconf", in)
+	}
+
+	// 7. filter conditions: every filter type x parameter against every
+	// arrangement of repeated carriers / every URL / every method
+	condPats := []string{"", "y", "n", "yn", "ny", "nyn", "nny", "ynn", "nn", "nnny"}
+	for _, ty := range []string{"h", "q", "c"} {
+		for param := 0; param < 2; param++ {
+			in := []string{"DIRECT", "POST", fmt.Sprintf("f%s1.%d.-", ty, param), "L1.b.0.-", "ELSE", "L2.b.0.-", ")"}
+			for _, kind := range []string{"MSGq", "MSGs"} {
+				for _, p := range condPats {
+					in = append(in, kind)
+					if p != "" {
+						in = append(in, "v1:"+p)
+					}
+				}
+			}
+			// a neighbouring tag must not matter
+			in = append(in, "MSGq", "v11:y", "v2:y", "MSGs", "v11:yy")
+			emit("exh-condition", in)
+		}
+	}
+	for param := 0; param < len(methodParams); param++ {
+		in := []string{"DIRECT", "POST", fmt.Sprintf("fm1.%d.-", param), "L1.b.0.-", "ELSE", "L2.b.0.-", ")"}
+		for i, me := range []string{"GET", "POST", "PUT", "get", "Post", "pOST", "GETS"} {
+			in = append(in, []string{"MSGq", "MSGs"}[i%2], "m"+me, []string{"MSGs", "MSGq"}[i%2], "m"+me)
+		}
+		emit("exh-condition", in)
+	}
+	for param := 0; param < len(urlParams); param++ {
+		in := []string{"DIRECT", "POST", fmt.Sprintf("fu1.%d.-", param), "L1.b.0.-", "ELSE", "L2.b.0.-", ")"}
+		i := 0
+		for sc := 0; sc < len(schemes); sc++ {
+			for ho := 0; ho < len(hosts); ho++ {
+				for pa := 0; pa < len(paths); pa++ {
+					i++
+					in = append(in, []string{"MSGq", "MSGs"}[i%2], fmt.Sprintf("u%d%d%d", sc, ho, pa))
+					if i%5 == 0 {
+						in = append(in, "v9:y") // a query string: "query" components no longer equal
+					}
+				}
+			}
+		}
+		emit("exh-condition", in)
+	}
+
+	// 8. stress: atomic replacement seen by concurrent exchanges and GETs
+	ns, nk := 3, 1500
+	if cfg.Thorough() {
+		ns, nk = 8, 5000
+	}
+	for k := 0; k < ns; k++ {
+		emit("stress", []string{"STRESS", strconv.Itoa(nk + 100*k), strconv.Itoa(3 + k%2), strconv.Itoa(1 + k%2)})
 	}
 }
